@@ -36,6 +36,8 @@ Tie to /repo:
       v + op, v - op, f - g, sub-operator access [i] / [i, j], simple_functional).  OUT-FORM clause of the
       oracle (every object the oracle sees): op(x, out=fresh) and derivative(x)(d, out=fresh) must return
       `out` holding the value of the out-of-place call (the in-place `_call` branches).
+  (R6) round 6: stream `ucomp` — OperatorComp(ufunc operator, random exact tree) against
+      Model/DerivUfuncComp.lean (tree at Rat, ufunc and generated derivative table at Float), rel. 1e-13.
 Oracle (independent of the model, on the real code): central differences at h = 2^-k,
 k = 4..14: component-wise agreement with the Richardson-extrapolated estimate (rel. 1e-7) and
 decay of the plain central-difference error like h^2; derivative(x).is_linear,
